@@ -230,6 +230,28 @@ def run_unit(unit_dir, repo, work, rlimit=None):
         return res
     if res.failures:
         res.status = 'violation'
+        # second run with --expand-errors: Verus narrows a failed contract down to the failing conjunct(s); the rendered
+        # output is attached to each failure so that the replay file names the exact sub-clause
+        try:
+            p2 = subprocess.run(['verus', gen, '--expand-errors', '--multiple-errors', '8', '--triggers-mode', 'silent'],
+                                stdout=subprocess.PIPE, stderr=subprocess.PIPE, text=True, timeout=600,
+                                cwd=os.path.dirname(gen))
+            exp = p2.stderr
+            # split into diagnostics ("error:" ... up to the next "error:"), keep those whose span lies in the function
+            diags2 = re.split(r'\n(?=error: )', exp)
+            for fl in res.failures:
+                nm = fl['obligation'].split('::')[-1]
+                rng = [r for r in ranges if r[2].split('::')[-1] == nm]
+                keep = []
+                for dg in diags2:
+                    ms = re.findall(r'--> [^:\n]+:(\d+):\d+', dg)
+                    if rng and any(rng[0][0] <= int(x) <= rng[0][1] for x in ms):
+                        keep.append(dg)
+                if not rng:
+                    keep = diags2
+                fl['rendered'] = fl.get('rendered', '') + '\n--- verus --expand-errors (✔ holds, ✘ fails) ---\n' + '\n'.join(keep)[:8000]
+        except Exception as e:
+            pass
     elif not vr.get('success') or vr.get('errors', 0) != 0:
         res.status = 'undecided'
         res.reason = f'verus unsuccessful without a verdict diagnostic: {vr} {other[:4]}'
